@@ -286,3 +286,39 @@ Definition finish_dkg (H : hash_input -> bytes) (defsch : bytes) (bits rut : Z) 
       | Ok fn => as_group H defsch st commits (map fst fn) (transition_time bits rut now st)
       end
   end.
+
+(* ---- echo broadcast (internal/dkg/broadcast.go): who is sent a bundle ----
+   newDispatcher makes one sender per participant of the sorted list other than the node itself;
+   broadcastDirect (a node's own bundles) and broadcast (the re-send of every bundle seen for the
+   first time) loop over [rand.Perm(len(d.senders))].  The shape of the three loops is read from
+   the source on every run by the dkgrun engine ([DEcho] case of Corr/DKGExecCorr.v). *)
+Inductive loop_range :=
+| AllSenders                 (* rand.Perm(len(d.senders)) *)
+| AllButLast (k : Z)         (* rand.Perm(len(d.senders) - k) *)
+| UnknownRange.              (* anything else *)
+
+Record dispatcher_shape := mkD {
+  d_one_sender_per_other : bool;   (* newDispatcher: range over [to], skip exactly [node.Address == us] *)
+  d_echo : loop_range;             (* dispatcher.broadcast *)
+  d_direct : loop_range            (* dispatcher.broadcastDirect *)
+}.
+
+Definition dispatcher_senders (sorted : list participant) (own_addr : bytes) : list participant :=
+  filter (fun p => negb (bytes_eqb (p_addr p) own_addr)) sorted.
+
+Definition loop_targets (r : loop_range) (senders : list participant) : list participant :=
+  match r with
+  | AllSenders => senders
+  | AllButLast k => firstn (Z.to_nat (Z.of_nat (length senders) - k)) senders
+  | UnknownRange => []
+  end.
+
+Definition echo_targets (s : dispatcher_shape) (sorted : list participant) (own_addr : bytes) :=
+  if d_one_sender_per_other s then loop_targets (d_echo s) (dispatcher_senders sorted own_addr) else [].
+Definition direct_targets (s : dispatcher_shape) (sorted : list participant) (own_addr : bytes) :=
+  if d_one_sender_per_other s then loop_targets (d_direct s) (dispatcher_senders sorted own_addr) else [].
+
+Definition is_all_senders (r : loop_range) : bool :=
+  match r with AllSenders => true | _ => false end.
+Definition shape_ok (s : dispatcher_shape) : bool :=
+  d_one_sender_per_other s && is_all_senders (d_echo s) && is_all_senders (d_direct s).
